@@ -415,6 +415,51 @@ def _parent_events(space):
     return ev
 
 
+def _big_events(seed):
+    """locations and transcripts with more blocks than the interpreter allows nested calls (a thousand): every public
+    question is answered or refused with a documented error -- RecursionError is an internal error"""
+    setup_repo_import()
+    from bcverif.props.c06 import mk_tx
+    from inscripta.biocantor.location.strand import Strand
+
+    rnd = random.Random(seed)
+    ev = []
+    n = rnd.choice([1050, 1300, 2100])
+    root = "".join(rnd.choice("ACGT") for _ in range(5 * n + 10))
+    blocks = [[5 * i + 1, 5 * i + 4] for i in range(n)]
+    for st in "+-":
+        l = E.make_loc(blocks, st, _parent(-1))
+        other = E.make_loc([[2, 30]], st)
+        L = len(l)
+        calls = [("relative_to_parent_pos", [L - 1], lambda: l.relative_to_parent_pos(L - 1)),
+                 ("relative_to_parent_pos", [0], lambda: l.relative_to_parent_pos(0)),
+                 ("relative_to_parent_pos", [L], lambda: l.relative_to_parent_pos(L)),
+                 ("parent_to_relative_pos", [blocks[-1][0]], lambda: l.parent_to_relative_pos(blocks[-1][0])),
+                 ("relative_interval_to_parent_location", [1, L - 1], lambda: l.relative_interval_to_parent_location(1, L - 1, Strand.PLUS).num_blocks),
+                 ("gaps_location", [], lambda: l.gaps_location().num_blocks), ("optimize_blocks", [], lambda: l.optimize_blocks().num_blocks),
+                 ("reverse", [], lambda: l.reverse().num_blocks), ("union", [], lambda: l.union(other).num_blocks),
+                 ("intersection", [], lambda: l.intersection(other).num_blocks), ("minus", [], lambda: l.minus(other).num_blocks),
+                 ("scan_blocks", [], lambda: len(list(l.scan_blocks()))), ("str", [], lambda: len(str(l))), ("hash", [], lambda: hash(l) and 1),
+                 ("scan_windows", [3, 3], lambda: len(list(l.scan_windows(3, 3, 0))))]
+        for name, ar, fn in calls:
+            ev.append(["call", "big-location", name, ar, E.outcome(lambda: fn() and 1)])
+        t = mk_tx(blocks, st, blocks, root)
+        T = len(t)
+        tcalls = [("transcript_pos_to_sequence", [T - 1], lambda: t.transcript_pos_to_sequence(T - 1)),
+                  ("sequence_pos_to_transcript", [blocks[-1][0]], lambda: t.sequence_pos_to_transcript(blocks[-1][0])),
+                  ("cds_pos_to_sequence", [T - 1], lambda: t.cds_pos_to_sequence(T - 1)),
+                  ("get_spliced_sequence", [], lambda: len(str(t.get_spliced_sequence()))),
+                  ("get_protein_sequence", [], lambda: len(str(t.get_protein_sequence()))),
+                  ("chromosome_codon_locations", [], lambda: len(list(t.cds.chromosome_codon_locations))),
+                  ("to_dict", [], lambda: len(t.to_dict())), ("to_bed12", [], lambda: len(str(t.to_bed12()))),
+                  ("chromosome_intron_location", [], lambda: t.chromosome_intron_location.num_blocks),
+                  ("transcript_interval_to_sequence", [0, T], lambda: t.transcript_interval_to_sequence(0, T, t.strand).num_blocks),
+                  ("get_5p_interval", [], lambda: t.get_5p_interval() is not None)]
+        for name, ar, fn in tcalls:
+            ev.append(["call", "big-transcript", name, ar, E.outcome(lambda: fn() and 1)])
+    return ev
+
+
 def _corrupt(ev, rnd):
     """binding control: the observed outcome replaced by an internal error / the returned location made ill-formed"""
     if ev[0] == "parent":
@@ -456,6 +501,8 @@ def run(chk):
     parts = pmap(_ctor_events, [cases[i::32] for i in range(32)])
     evs = [e for p in parts for e in p]
     parts = pmap(_method_events, [(chk.seed * 1009 + i, 2 if quick else 25, 6 if quick else 14) for i in range(32)])
+    evs += [e for p in parts for e in p]
+    parts = pmap(_big_events, [chk.seed * 53 + i for i in range(2 if quick else 8)])
     evs += [e for p in parts for e in p]
     # the Parent record algebra: the whole argument space of ParentAlg performed on the real class
     chk.mc("ParentMC", "ParentMC.cfg", workers=1, note="laws of the Parent algebra over the complete argument space: strip is "
